@@ -219,3 +219,18 @@ Theorem C11_batch_exchange_events_cached : forall w A id ce add rem rel w' n evs
   evs = flat_map (ev_of w w' add rem) (table_ents w (c_tables ce)).
 Proof. exact batch_exchange_events_cached. Qed.
 Print Assumptions C11_batch_exchange_events_cached.
+
+Theorem C11_batch_set_relation_events_cached : forall w A id ce rid T w' n evs,
+  R w A -> cache_ok w -> cache_get w id = Some ce -> w_listener w = Some lall ->
+  op_batch_set_relation w (FCached id) rid T = (w', Ok (VNat n), evs) ->
+  evs = flat_map (sr_ev w rid) (table_ents w (retargeted T w (c_tables ce))).
+Proof. exact batch_set_relation_events_cached. Qed.
+
+Theorem C11_batch_remove_events_cached : forall w A id ce w' n evs,
+  R w A -> cache_ok w -> cache_get w id = Some ce -> w_listener w = Some lall ->
+  (forall e, e ∈ table_ents w (c_tables ce) -> (egen e < gen_max)%N) ->
+  op_remove_entities w (FCached id) = (w', Ok (VNat n), evs) ->
+  evs = flat_map (rm_ev w) (table_ents w (c_tables ce)).
+Proof. exact batch_remove_events_cached. Qed.
+Print Assumptions C11_batch_set_relation_events_cached.
+Print Assumptions C11_batch_remove_events_cached.
